@@ -61,6 +61,9 @@ def _run(argv):
 
     if FLAGS.clip_to_viewbox:
         svg.clip_to_viewbox(inplace=True)
+        # clipping computes new outlines at full float precision; round them
+        # the way topicosvg rounded the rest (its default ndigits)
+        svg.round_floats(3, inplace=True)
 
     output = svg.tostring(pretty_print=True)
 
